@@ -247,6 +247,7 @@ def r13_lookup_never_iterates_its_caches(ctx):
 
 
 RULES = [
+    ("C19.R16", "P1", lambda ctx: r16_generator_gets_no_table_state(ctx), "the dependent generator is handed no long-lived mutable object of the table"),
     ("C19.R13", "P1", r13_lookup_never_iterates_its_caches, "the lookup path never iterates over a table it fills"),
     ("C19.R6", "P1", r6, "bookkeeping read by concurrent lookups is written before the entry that makes them possible"),
     ("C19.R5", "P1", r5_per_call_state_is_local, "the generated entry point keeps its per-call state in locals"),
@@ -257,3 +258,50 @@ RULES = [
     ("C19.R7", "P1", _more("value_checks_are_pure"), "per-call value checks write nothing to shared type objects"),
     ("C19.R8", "P1", _more("call_paths_keep_no_state"), "per-call methods of the function object keep no state"),
 ]
+
+
+def r16_generator_gets_no_table_state(ctx):
+    """Every generated value-dependent dispatcher is built from values of this one resolution: the wrapper hands the
+    generator nothing that lives on the table across resolutions (a name database, a namespace dictionary, a list) -
+    two threads resolving different type tuples at once would write into it together."""
+    from .c10 import _wrap_site
+
+    repo = ctx.repo
+    res, call, w = _wrap_site(ctx)
+    gen = A.dependent_generator(repo)
+    ctx.touch(w, gen)
+    rv = recv_name(w)
+    multi = A.multimap(repo)
+    init = multi.methods.get("__init__")
+    made_in_init = {}
+    if init is not None:
+        irv = recv_name(init)
+        for st in ast.walk(init.node):
+            if isinstance(st, ast.Assign):
+                for t in st.targets:
+                    if is_self_attr(t, selfname=irv):
+                        made_in_init[t.attr] = st.value
+    wcalls = [c for c in ast.walk(w.node) if isinstance(c, ast.Call) and call_name(c) == gen.name]
+    if len(wcalls) != 1:
+        raise AnalysisError(f"{w.key}: expected one call of the dependent generator")
+    bad = None
+    n = 0
+    for a in list(wcalls[0].args) + [k.value for k in wcalls[0].keywords]:
+        n += 1
+        e = a
+        if isinstance(e, ast.Name):
+            defs = [s.value for s in ast.walk(w.node) if isinstance(s, ast.Assign) and any(isinstance(t, ast.Name) and t.id == e.id for t in s.targets)]
+            if len(defs) == 1:
+                e = defs[0]
+        if is_self_attr(e, selfname=rv):
+            v = made_in_init.get(e.attr)
+            mutable = isinstance(v, (ast.Dict, ast.List, ast.Set)) or (isinstance(v, ast.Call) and call_name(v) not in ("count", "itertools.count", "str", "int", "tuple", "frozenset"))
+            if mutable and bad is None:
+                bad = (a, e.attr, v)
+    ctx.ob(
+        f"{w.key}:generator-gets-no-table-state",
+        w.loc(bad[0]) if bad else w.loc(),
+        f"the wrapper hands the dependent generator only values of this resolution ({n} arguments), no long-lived mutable object of the table",
+        bad is None,
+        (f"`self.{bad[1]}` (created once per table as `{short(bad[2], 40)}`) is handed to the generator, which fills it while generating: two threads resolving different argument types at once write their handlers and checks into the same namespace, and a dispatcher is built with another call's handlers" if bad else ""),
+    )
